@@ -76,6 +76,27 @@ def worker_loop(
     # Establish transport connection (no-op for in-memory, real for NATS/Kafka, etc.)
     transport.connect()
 
+    def _report_failure(failed_job_id: str, error: BaseException | str) -> None:
+        """Tell the master that a job failed so its Future completes exceptionally."""
+        if failed_job_id == "<unknown>":
+            return
+        try:
+            transport.publish(
+                f"jobs.{failed_job_id}.status",
+                data=None,
+                context=ContextType({"job_id": failed_job_id}),
+                metadata={
+                    "job_id": failed_job_id,
+                    "error": str(error),
+                    "exception": error if isinstance(error, BaseException) else None,
+                },
+                require_ack=False,
+            )
+        except Exception as publish_exc:  # pragma: no cover - defensive
+            worker_logger.error(
+                "Failed to report failure of job %s: %s", failed_job_id, publish_exc
+            )
+
     try:
         # Continue looping until an external shutdown signal is received
         while not stop_event.is_set():
@@ -114,6 +135,7 @@ def worker_loop(
                             worker_logger.error(
                                 f"Failed to load pipeline YAML for job {job_id} from '{pcfg}': {e}"
                             )
+                            _report_failure(job_id, e)
                             try:
                                 msg.ack()
                             except Exception:
@@ -124,6 +146,9 @@ def worker_loop(
                     ):
                         worker_logger.error(
                             f"Invalid pipeline configuration received for job {job_id}: {pcfg}"
+                        )
+                        _report_failure(
+                            job_id, f"Invalid pipeline configuration: {pcfg!r}"
                         )
                         msg.ack()  # acknowledge to remove the message if applicable
                         continue  # skip processing this message
@@ -168,6 +193,7 @@ def worker_loop(
                 except Exception as e:
                     # Log any error during processing without crashing the loop
                     worker_logger.exception(f"Worker failed job {job_id}: {e}")
+                    _report_failure(job_id, e)
 
             # Close this subscription before the next polling iteration
             sub.close()
